@@ -186,6 +186,22 @@ func (rec *Recording) CrossValidateCanon(killLog, killRoot, scratch string, igno
 	return n, exact, nil
 }
 
+// ChildModfile returns the -modfile the child processes are built with ("" =
+// the harness go.mod, i.e. /repo): VERIF_MODFILE, or the go.mod that
+// `VERIF_REPO=<worktree> ./check` writes into $VERIF_TMP.
+func ChildModfile() string {
+	if mf := os.Getenv("VERIF_MODFILE"); mf != "" {
+		return mf
+	}
+	if os.Getenv("VERIF_REPO") != "" && os.Getenv("VERIF_TMP") != "" {
+		cand := filepath.Join(os.Getenv("VERIF_TMP"), "go.mod")
+		if _, err := os.Stat(cand); err == nil {
+			return cand
+		}
+	}
+	return ""
+}
+
 // HarnessDir locates the verif/harness module directory.
 func HarnessDir() (string, error) {
 	if d := os.Getenv("VERIF_HARNESS"); d != "" {
@@ -216,16 +232,7 @@ func BuildChild(pkg, out string) error {
 		return err
 	}
 	args := []string{"build", "-tags", "verif", "-o", out}
-	mf := os.Getenv("VERIF_MODFILE")
-	if mf == "" && os.Getenv("VERIF_REPO") != "" {
-		// ./check with VERIF_REPO=<worktree> runs the test with -modfile=$VERIF_TMP/go.mod
-		// (replace => worktree): the child must be built against the same tree.
-		if cand := filepath.Join(os.Getenv("VERIF_TMP"), "go.mod"); os.Getenv("VERIF_TMP") != "" {
-			if _, err := os.Stat(cand); err == nil {
-				mf = cand
-			}
-		}
-	}
+	mf := ChildModfile()
 	if mf != "" {
 		args = append(args, "-modfile", mf)
 	}
